@@ -29,6 +29,7 @@ import signal
 import time
 from typing import Any, Dict, List, Optional, Tuple
 
+import gentie
 import vlib
 from ih5lib import dec, enc
 
@@ -1246,6 +1247,9 @@ def run(ctx: vlib.Ctx):
                       found_input=False)
     elif disagreements:
         ctx.notes.append(f"{len(disagreements)} model/impl disagreements (first: {disagreements[0]})")
+    # generated tie: container/utils.py is re-translated from the current source and proved equal
+    # to Toc/Layout.v (coq/Gen/Equiv_utils.v); string-level laws are also evaluated on the code alone
+    gentie.report(ctx)
 
 
 def describe(v: dict, drv: str) -> str:
@@ -1337,6 +1341,8 @@ def replay(rep) -> int:
     vlib._pool_init()
     global PKG
     PKG = load_pkg_names()
+    if rep.get("kind") == "utils-string-law":
+        return gentie.replay(rep)
     if "ops" not in rep:
         print("replay names a proof obligation or correspondence; re-run the check itself")
         return 1
